@@ -164,6 +164,9 @@ func propCheck(c Case) string {
 	if c.Kind == "chmm" || c.Kind == "hhmm" {
 		return propCheckCH(c)
 	}
+	if c.Kind == "hist" {
+		return propCheckHist(c)
+	}
 	if c.Kind == "pre" {
 		p, _ := observePre(c)
 		want := false
@@ -401,6 +404,9 @@ func shrink(c Case) Case {
 	if isMix(c) {
 		return c
 	}
+	if c.Kind == "hist" {
+		return shrinkHist(c)
+	}
 	fails := func(x Case) bool { return propCheck(x) != "" }
 	// a single sequence
 	for _, s := range c.Seqs {
@@ -561,7 +567,9 @@ func hunt(o Opts) {
 		for k := 0; k < o.N/2 && !done; k++ {
 			rr := rng.Split()
 			var c Case
-			if k%7 == 5 {
+			if k%3 == 1 {
+				c = genHist(rr, w)
+			} else if k%7 == 5 {
 				c = genChmm(rr, w)
 			} else if k%7 == 6 {
 				c = genHhmm(rr, w)
@@ -616,7 +624,7 @@ func knownCheck() []Known {
 				expv(obs.Tf[0][0]), obs.Seqs[0].Vit, expv(obs.Seqs[0].Marg[1][0]))
 		}
 	}
-	return append([]Known{k}, knownCheckCH()...)
+	return append(append([]Known{k}, knownCheckCH()...), knownCheckHist()...)
 }
 
 // round 3: final-state restriction on hierarchical / constrained HMMs (fixed witnesses,
